@@ -978,3 +978,172 @@ func (h H) syncDirSyncs(rule string) {
 		h.C.Check(rule+" success-implies-fsync", fmt.Sprintf("syncDir return#%d", k+1), res.OK, h.pos(r), "syncDir reports success without having synced the directory: "+res.Witness)
 	}
 }
+
+// deferredResultOverwrite (C20.3c / C05.6b / C15.6c): a deferred closure that
+// assigns to the enclosing function's named error result replaces whatever
+// the function was about to return. It may do so only when there is nothing
+// to replace (`if err == nil { err = … }`), when it converts a recovered
+// panic, or when the new value is built from the old one. Otherwise a refusal
+// or a failed write is reported as success (F14: SetIdentity's unlock).
+func (h H) deferredResultOverwrite(rule string) {
+	n := 0
+	for _, fn := range h.P.Funcs() {
+		if fn.Parent() != nil || fn.Signature.Results().Len() == 0 {
+			continue
+		}
+		for _, cl := range h.P.DeferredClosures(fn) {
+			for _, b := range cl.Blocks {
+				for _, in := range b.Instrs {
+					st, ok := in.(*ssa.Store)
+					if !ok {
+						continue
+					}
+					fv, ok := st.Addr.(*ssa.FreeVar)
+					if !ok || !isErrorType(deref(fv.Type())) {
+						continue
+					}
+					// the captured cell is a named result of fn
+					if !h.isNamedResultCell(fn, cl, fv) {
+						continue
+					}
+					n++
+					okStore := false
+					why := "unconditionally"
+					// (a) guarded by the cell being nil
+					core.DomEdges(b, func(iff *ssa.If, k int) bool {
+						bo, isBin := iff.Cond.(*ssa.BinOp)
+						if !isBin || (bo.Op != token.EQL && bo.Op != token.NEQ) {
+							return false
+						}
+						var x ssa.Value
+						switch {
+						case isNilConst(bo.Y):
+							x = bo.X
+						case isNilConst(bo.X):
+							x = bo.Y
+						default:
+							return false
+						}
+						if ld, isLd := x.(*ssa.UnOp); isLd && ld.Op == token.MUL && ld.X == ssa.Value(fv) {
+							if (bo.Op == token.EQL) == (k == 0) {
+								okStore = true
+								return true
+							}
+						}
+						// (b) inside `if r := recover(); r != nil`
+						if c, isCall := unwrapIface(x).(*ssa.Call); isCall {
+							if bi, isB := c.Common().Value.(*ssa.Builtin); isB && bi.Name() == "recover" && (bo.Op == token.NEQ) == (k == 0) {
+								okStore = true
+								return true
+							}
+						}
+						return false
+					})
+					// (c) the new value is built from the old one
+					if !okStore {
+						var from func(v ssa.Value, d int) bool
+						from = func(v ssa.Value, d int) bool {
+							if d > 5 {
+								return false
+							}
+							switch x := v.(type) {
+							case *ssa.UnOp:
+								return x.Op == token.MUL && x.X == ssa.Value(fv)
+							case *ssa.Call:
+								for _, a := range x.Common().Args {
+									if from(a, d+1) {
+										return true
+									}
+								}
+							case *ssa.MakeInterface:
+								return from(x.X, d+1)
+							case *ssa.Phi:
+								for _, e := range x.Edges {
+									if from(e, d+1) {
+										return true
+									}
+								}
+							}
+							return false
+						}
+						okStore = from(st.Val, 0)
+					}
+					h.C.Check(rule, fmt.Sprintf("%s deferred store to result %s", h.name(fn), fv.Name()), okStore, h.pos(st), "a deferred function assigns the named error result "+why+": the error (or refusal) the function was returning is replaced, possibly by nil")
+				}
+			}
+		}
+	}
+	h.C.Floor(rule+" (deferred stores to named error results)", n, 1)
+}
+
+func deref(t types.Type) types.Type {
+	if p, ok := t.Underlying().(*types.Pointer); ok {
+		return p.Elem()
+	}
+	return t
+}
+
+func unwrapIface(v ssa.Value) ssa.Value {
+	for i := 0; i < 4; i++ {
+		switch x := v.(type) {
+		case *ssa.MakeInterface:
+			v = x.X
+		case *ssa.ChangeInterface:
+			v = x.X
+		default:
+			return v
+		}
+	}
+	return v
+}
+
+// isNamedResultCell: free variable fv of closure cl (created in fn) is bound
+// to the cell of one of fn's named results.
+func (h H) isNamedResultCell(fn, cl *ssa.Function, fv *ssa.FreeVar) bool {
+	idx := -1
+	for i, f := range cl.FreeVars {
+		if f == fv {
+			idx = i
+		}
+	}
+	if idx < 0 {
+		return false
+	}
+	var cell ssa.Value
+	core.Instrs(fn, func(in ssa.Instruction) {
+		if mc, ok := in.(*ssa.MakeClosure); ok && mc.Fn == ssa.Value(cl) && idx < len(mc.Bindings) {
+			cell = mc.Bindings[idx]
+		}
+	})
+	al, ok := cell.(*ssa.Alloc)
+	if !ok {
+		return false
+	}
+	res := fn.Signature.Results()
+	for i := 0; i < res.Len(); i++ {
+		if res.At(i).Name() != "" && res.At(i).Name() == al.Comment {
+			return true
+		}
+	}
+	return false
+}
+
+// setIdentityRefusal (C20.3d): SetIdentity hands back ErrIdentityAlreadySet
+// when a different identity is stored, and val.set's error when writing fails
+// — as the value the caller receives, i.e. after the deferred functions ran.
+func (h H) setIdentityRefusal(rule string) {
+	fn := h.fn("raft:SetIdentity")
+	fi := h.P.Info(fn)
+	sawRefusal, sawSet := false, false
+	for _, r := range core.Returns(fn) {
+		v := fi.Sym(retOperand(r, 0)).String()
+		if v == "global:ErrIdentityAlreadySet" {
+			sawRefusal = true
+		}
+		if strings.HasPrefix(v, "(*value).set(") {
+			sawSet = true
+		}
+	}
+	h.C.Check(rule+" refusal-returned", "SetIdentity", sawRefusal, h.fpos(fn), "SetIdentity must return ErrIdentityAlreadySet when a different identity is stored")
+	h.C.Check(rule+" write-error-returned", "SetIdentity", sawSet, h.fpos(fn), "SetIdentity must return the error of writing the identity")
+}
